@@ -235,6 +235,15 @@ def run_property(prop, tier, a):
     relevant = 0
     bounded_cov = []
     search_cache = {}
+    # functions one of whose ghost anchors binds in no case: their proof hints were written for different code, so an
+    # open obligation there is *undecided* (unless a failing input is found), never a lock-based violation
+    _gall, _gused = {}, {}
+    for r in results:
+        if r.get('kind') == 'bounded' or r.get('crash'):
+            continue
+        _gall.setdefault(r['target'], set()).update(r.get('ghost_all', []))
+        _gused.setdefault(r['target'], set()).update(r.get('ghost_used', []))
+    anchor_missing = set(t for t in _gall if _gall[t] - _gused.get(t, set()))
     for r in results:
         if r.get('kind') == 'bounded':
             bounded_cov.append({k: r[k] for k in ('target', 'gap', 'gen', 'clauses', 'evaluations',
@@ -306,9 +315,12 @@ def run_property(prop, tier, a):
                     continue
                 if kf:
                     known_hits.append((kf[0], key, rec))
-                elif key in lock:
+                elif key in lock and r['target'] not in anchor_missing:
                     path = write_replay(prop, r, rec, 'obligation discharged on the committed tree and fails now; no failing input found')
                     violations.append((key, rec, path, ' no-failing-input-found'))
+                elif key in lock:
+                    undecided.append((key, '%s; a ghost anchor of this function no longer binds (the code under the proof hints '
+                                           'changed), no failing input found' % rec['status']))
                 else:
                     undecided.append((key, '%s (%s)' % (rec['status'], rec.get('reason') or rep.get('status'))))
     # a ghost anchor that no case of its function reached means the contract no longer binds
